@@ -123,6 +123,18 @@ fn run_once<A: Alphabet>(
             SamplerMode::Oops if inertia.is_none() && patience.is_none() && temperature == 1.0 => Sampler::new(&data, width, Rng::new(rng_seed)),
             _ => {
                 let mut b = SamplerBuilder::new(&data);
+                if let Some(w2) = warm_width {
+                    // the same builder served the other width first (fully configured: a Zoops
+                    // sampler needs its seeds)
+                    b.width(w2).mode(mode.clone());
+                    if mode == SamplerMode::Zoops {
+                        b.seeds(seeds);
+                    }
+                    let mut first = b.sample(Rng::new(rng_seed ^ 0xa5a5));
+                    for _ in 0..20 {
+                        let _ = first.next();
+                    }
+                }
                 b.width(width).mode(mode.clone());
                 b.temperature(temperature);
                 if mode == SamplerMode::Zoops {
